@@ -140,6 +140,10 @@ def wire_rules(ctx, R, verbs=True):
                 rets_ = [r for r in walk_no_nested(g.node) if isinstance(r, ast.Return) and r.value is not None]
                 if len(gp) >= 1 and len(rets_) == 1:
                     return classify(rets_[0].value, rets_[0], g, gp[0], depth + 1)
+        if isinstance(el, ast.Call) and isinstance(el.func, ast.Name) and ctx.program.cls(el.func.id) is not None and len(el.args) == 1 \
+                and not el.keywords and "bytes" in ctx.program.cls(el.func.id).base_names:
+            # the marker type built around an inline literal: judged as the literal it wraps (rule W4)
+            return classify(el.args[0], st, func, v, depth + 1)
         if isinstance(el, ast.BinOp) and isinstance(el.op, ast.Mod) and isinstance(el.left, ast.Constant) \
                 and isinstance(el.left.value, bytes):
             if el.left.value == b'"%s"':
@@ -185,6 +189,13 @@ def wire_rules(ctx, R, verbs=True):
                         v = const_value(ctx.program, fmt, cp[0])
                         if v == ch:
                             return pol is (cp[1] == "NotIn")
+                    # set forms: <constant set of byte values>.isdisjoint(value) (a bytes value is a sequence of ints: only a set
+                    # holding the byte's NUMBER says anything about it)
+                    if isinstance(e, ast.Call) and isinstance(e.func, ast.Attribute) and e.func.attr == "isdisjoint" and len(e.args) == 1 \
+                            and isinstance(e.args[0], ast.Name) and e.args[0].id == var:
+                        sv = const_value(ctx.program, fmt, e.func.value)
+                        if isinstance(sv, (set, frozenset, bytes, tuple, list)) and ch[0] in (sv if not isinstance(sv, bytes) else list(sv)):
+                            return pol is True
                     # regex / any() forms
                     if isinstance(e, ast.Call) and call_name(e) in ("search", "match", "findall"):
                         pats = list(e.args)
@@ -229,7 +240,13 @@ def wire_rules(ctx, R, verbs=True):
                         for c in walk_no_nested(g.node):
                             if isinstance(c, ast.Call) and call_name(c) == tname:
                                 if R.literal_builder is None or g is not R.literal_builder:
-                                    bad.append((g, c))
+                                    # elsewhere: fine as long as what is wrapped is itself a well-formed literal {len(X)+} CRLF X
+                                    shape_ok = len(c.args) == 1 and isinstance(c.args[0], ast.BinOp) and isinstance(c.args[0].op, ast.Mod) \
+                                        and isinstance(c.args[0].right, ast.Tuple) and len(c.args[0].right.elts) == 3 \
+                                        and isinstance(c.args[0].right.elts[2], ast.Name) \
+                                        and literal_template_ok(ctx, g, c.args[0], want_var=c.args[0].right.elts[2].id) is True
+                                    if not shape_ok:
+                                        bad.append((g, c))
                 if bad:
                     g, c = bad[0]
                     ctx.violation("W3", g, "marker-built-elsewhere", "the literal marker type is constructed outside the literal builder: %s"
